@@ -16,7 +16,7 @@ def main():
     meta = json.load(open(os.path.join(d, "meta.json")))
     prop = meta["property"]
     wt = "/tmp/recheck_%s" % name
-    subprocess.run("git -C /repo worktree remove --force %s 2>/dev/null; git -C /repo worktree add -f %s HEAD && git -C %s apply %s/patch.diff" % (wt, wt, wt, d),
+    subprocess.run("git -C /repo worktree remove --force %s 2>/dev/null; git -C /repo worktree add -f %s HEAD && git -C %s apply %s/patch.diff && cp /repo/Cargo.lock %s/Cargo.lock" % (wt, wt, wt, d, wt),
                    shell=True, check=True, stdout=subprocess.DEVNULL, stderr=subprocess.STDOUT)
     try:
         t0 = time.time()
